@@ -37,7 +37,7 @@ def run(ck):
     ]
     ck.finish("fault_enumeration",
               "for previous file state in {absent, shorter, equal length, longer; one or two generations} x payload sizes {0, 1..40, ~512, ~1024, 2000..6000, 33000..70000} x deadlines past/future: the write() sequence of the new save is recorded by a "
-              "link-time shim, then every prefix of it, every byte prefix of the data area (all in thorough, <=300 per write in quick), subsets of touched 512-byte sectors (all when <=12 sectors in thorough) and real child-process "
+              "link-time shim, then every prefix of it, every byte prefix of the data area (all up to 8 KiB and ~3000 per write beyond in thorough, <=300 per write in quick), subsets of touched 512-byte sectors (all when <=12 sectors in thorough) and real child-process "
               "crashes after exactly k bytes are each followed by the real load(): result must be 'no session' (file unlinked) or a complete earlier/in-flight payload with a deadline of some save that is not in the past; "
               "garbage collection is run on directories of live, expired, unreadable and foreign files against a model. Concurrent part: 1..3 owner threads (expired save, live save, load) against a gc thread and 0..2 loader "
               "threads, and against gc/loader processes forked after the storage was created, for plain-mutex, process-shared-mutex and fcntl locking, under ASan and ThreadSanitizer; pre-forked workers (2..3 processes x 2..3 owner threads plus a loader each, ids spread over the lock slots), the same with one more worker leaving in an orderly way, and a worker killed inside save() followed by load/save probes from another process (a probe that has not returned after 60 s counts as blocked). non-trivial = distinct (old file, new payload) cases",
